@@ -30,7 +30,8 @@ struct SdoDict {
     }
     void build(const Plan &p, int nSsdo, bool constSdoIds = true) {
         add_mandatory(specs, nSsdo); (void)constSdoIds;
-        if (p.c("poolfull", -1) >= 0) add_typed(specs, T_HBPROD, 0x1017, 0, CO_OBJ_____RW, 0);   // C04 plans: a writable entry whose type needs a timer slot
+        if (p.c("poolfull", -1) >= 0) add_typed(specs, T_HBPROD, 0x1017, 0, CO_OBJ_____RW, 0);
+        if (p.c("resetfail", 0)) { ObjSpec o; o.idx = 0x2305; o.sub = 0; o.flags = CO_OBJ_____RW; o.type = T_USER; o.val = 0xFFFF; specs.push_back(o); }   // C05 plans: an entry whose type refuses the rewind at the start of a transfer   // C04 plans: a writable entry whose type needs a timer slot
         uint16_t i = 0x2000;
         addInt(i, 0, 1, CO_OBJ_D___R_, 9);
         addInt(i, 1, 1, CO_OBJ_____RW, 0x11); addInt(i, 2, 2, CO_OBJ_____RW, 0x2222); addInt(i, 3, 4, CO_OBJ_____RW, 0x33333333);
